@@ -973,6 +973,78 @@ def c12_tiebreak_retry_timer(ctx):
     return q.result()
 
 
+def _deref_val(p, v):
+    if isinstance(v, Ref):
+        return p.objs.get(v.obj, {}).get(v.path)
+    return v
+
+
+def c08_tiebreak_count_operands(ctx):
+    q = Q("c08_tiebreak_count_operands", ["Probe::tiebreaking (record-count comparison after an equal prefix)"],
+          "every explored path of Probe::tiebreaking to the record-count comparison (first loop iteration, opaque record comparisons)",
+          ["calls are opaque; the operands of the final usize comparison are traced to the calls that produced them"])
+    f = ctx.funcs[ctx.fn("::tiebreaking")]
+    ex = Explorer(ctx.funcs, ctx.consts, stop_calls=("<usize as Ord>::cmp",), max_paths=600)
+    paths = [p for p in ex.explore(f.name) if p.outcome.startswith("stop")]
+    if not paths:
+        q.unknown.append("the record-count comparison (<usize as Ord>::cmp) is not reached")
+    for i, p in enumerate(paths):
+        a, b = [_deref_val(p, x) for x in p.events[-1][2][:2]]
+        lens = [(e[1], e[2]) for e in p.events if e[0] == "ret" and e[1].split("::")[-1] == "len"]
+        def origin(v):
+            if not isinstance(v, BV):
+                return None
+            for name, rv in reversed(lens):
+                if isinstance(rv, BV) and rv.e.eq(v.e):
+                    return name
+            return None
+        oa, ob = origin(a), origin(b)
+        if oa is None or ob is None:
+            q.fail.append(("the record-count tiebreak does not compare the lengths of the two record lists", f"path {i}: operands come from {oa} / {ob}"))
+            continue
+        ours = "Vec::<Box<dyn" in oa and "&Box" not in oa
+        theirs = "Vec::<&Box<dyn" in ob
+        if not (ours and theirs):
+            q.fail.append(("the record-count tiebreak must compare our record count with the number of the other prober's records of that name, in this order", f"path {i}: {oa} vs {ob}"))
+        else:
+            q.nontrivial += 1
+    # what is done with the verdict: Less <=> postpone (decided by the Kani harnesses c08_tiebreak_*)
+    return q.result()
+
+
+def c19_browse_listener_gone(ctx):
+    q = Q("c19_browse_listener_gone", ["Zeroconf::exec_command_browse"],
+          "every path of exec_command_browse on which delivering SearchStarted fails (the browser's receiver was dropped)",
+          ["Sender::send is opaque: both outcomes explored"])
+    f = ctx.funcs[ctx.fn("::exec_command_browse")]
+    ex = Explorer(ctx.funcs, ctx.consts, max_paths=800)
+    paths = [p for p in ex.explore(f.name) if p.outcome == "return"]
+    n_err = 0
+    for i, p in enumerate(paths):
+        ev = p.events
+        sends = [j for j, e in enumerate(ev) if e[0] == "call" and e[1].split("::")[-1] == "send" and "Sender" in e[1]]
+        if not sends:
+            continue
+        d = [e for e in ev[sends[0]:] if e[0] == "discr"]
+        if not d:
+            q.unknown.append(f"path {i}: outcome of the first send is not examined")
+            continue
+        dv = d[0][3]
+        is_err = q.d.check(p.cond + [dv.e == 0], f"path {i}: first send Ok?")[0] == "unsat"
+        if not is_err:
+            continue
+        n_err += 1
+        later = [e[1].split("::")[-1] for e in ev[sends[0] + 1:] if e[0] == "call"]
+        bad = [c for c in later if c in ("add_retransmission", "send_query", "insert", "query_cache_for_service")]
+        if bad:
+            q.fail.append(("a browse whose listener is already gone still registers / queries / schedules a retransmission (a second schedule for the type survives)", f"path {i}: calls after the failed SearchStarted: {bad}"))
+    if n_err == 0:
+        q.unknown.append("no path on which SearchStarted cannot be delivered")
+    else:
+        q.nontrivial += n_err
+    return q.result()
+
+
 def z3_vars(e):
     out, seen, stack = [], set(), [e]
     while stack:
@@ -1169,5 +1241,6 @@ SPECS = {
     "C05": [c05_reset_restores, c05_verify_deadline, c05_verify_shortens_only, c05_evict_predicate],
     "C07": [c07_probe_clock, c07_reannounce_delay],
     "C12": [c12_poll_timeout, c12_ipcheck_rearm, c12_hostname_timeout_timer, c12_conflict_probe_timer, c12_tiebreak_retry_timer, c11_cache_flush_rule, c05_verify_deadline],
-    "C19": [c19_browse_backoff, c19_hostname_backoff, c19_resolve_retry, c19_initial_delay, c19_rerun_due],
+    "C19": [c19_browse_backoff, c19_hostname_backoff, c19_resolve_retry, c19_initial_delay, c19_rerun_due, c19_browse_listener_gone],
+    "C08": [c08_tiebreak_count_operands],
 }
